@@ -160,6 +160,20 @@ class _Stop(Exception):
     pass
 
 
+_FROZEN = []
+
+
+def _freeze_heap():
+    """the workers are forked from a parent with a large heap (z3, numpy, every contract module): without this, each
+    full garbage collection triggered by the many short-lived objects of the histories walks - and, after a fork,
+    copies - that whole heap.  gc.freeze() parks the objects that exist now outside the collector (once per process)."""
+    if not _FROZEN:
+        import gc
+        gc.collect()
+        gc.freeze()
+        _FROZEN.append(True)
+
+
 class _Hist:
     """the ``env`` handed to the history code.  Symbolic shapes: a thin wrapper, every choice is an
     ``env.choice`` (one engine path per history).  Enumerated shapes (``batch``): only the first
@@ -186,6 +200,7 @@ class _Hist:
         return self.env.symbolic
 
     def runs(self):
+        _freeze_heap()
         if not self.batch:
             yield self
             return
@@ -863,8 +878,9 @@ class _DWorld:
     def __init__(self, env, dis, agents, late=()):
         self.env = env
         self.dis = dis
-        self.chan = OrderedDict()
-        self.order = deque()            # global posting order (for the 'fifo' policy)
+        self.chan = OrderedDict()       # (sender, receiver) -> deque of (burst number, message)
+        self.burst = 0                  # messages sent during one step form a burst; inside a burst the Directory loops over
+        #                                 sets of subscribers: the schedule must not depend on that (hash-seed dependent) order
         self.comps = {}
         self.trace = []                 # what happened, for the failure reports
         self.raised = None
@@ -902,23 +918,21 @@ class _DWorld:
         c.message_sender = lambda src, dst, msg, prio=None, on_error=None: self._post(src, dst, msg)
 
     def _post(self, src, dst, msg):
-        self.chan.setdefault((src, dst), deque()).append(msg)
-        self.order.append((src, dst))
+        self.chan.setdefault((src, dst), deque()).append((self.burst, msg))
         self.trace.append(("sent", src, dst, repr(msg)))
 
     def enabled(self):
-        return [k for k, q in self.chan.items() if q]
+        return sorted(k for k, q in self.chan.items() if q)
 
     def pending(self):
         return sum(len(q) for q in self.chan.values())
 
     def outbox(self, name):
         """messages of agent ``name`` to the directory that are not delivered yet"""
-        return list(self.chan.get(("_discovery_" + name, "_directory"), ()))
+        return [m for _, m in self.chan.get(("_discovery_" + name, "_directory"), ())]
 
     def deliver(self, key):
-        msg = self.chan[key].popleft()
-        self.order.remove(key)
+        _, msg = self.chan[key].popleft()
         self.trace.append(("deliver", key[0], key[1], repr(msg)))
         target = key[1]
         who = target[len("_discovery_"):] if target.startswith("_discovery_") else None
@@ -931,8 +945,8 @@ class _DWorld:
             en = self.enabled()
             if not en:
                 break
-            if policy == "fifo":
-                key = self.order[0]
+            if policy == "fifo":        # oldest burst first, channels of one burst in name order
+                key = min(en, key=lambda k: (self.chan[k][0][0], k))
             elif policy == "lifo":
                 key = en[-1]
             elif policy == "explore":
@@ -963,6 +977,7 @@ class _DWorld:
 
     def step(self, who, action, what, opname=None):
         env = self.env
+        self.burst += 1
         before = self.views(who) if who in self.disc else {}
         registered = {k: list(s["cbs"]) for k, s in self.subs.items() if k[0] == who}
         self.calls = []
@@ -996,7 +1011,12 @@ class _DWorld:
         return r
 
     def region(self, what, who, kind, item):
-        tags = sorted(self.flags.get((who, kind, item), ()))
+        """the part of the history space an obligation instance lies in (appended to its label): regions where the
+        unchanged code is known to fail stay apart from the rest"""
+        tags = set(self.flags.get((who, kind, item), ())) | set(self.flags.get(("*", kind, item), ()))
+        if kind == "replica":       # what replica_agents() answers also depends on the knowledge of the computation
+            tags |= set(self.flags.get((who, "computation", item), ())) | set(self.flags.get(("*", "computation", item), ()))
+        tags = sorted(tags)
         return "[%s]" % ",".join(tags) if tags else ""
 
     def flag(self, who, kind, item, tag):
@@ -1167,8 +1187,13 @@ class _DOps:
             w.leave(x)
         elif name == "reg_comp":
             c = op[2]
+            if c in w.host:      # it was registered, then unregistered, before
+                w.flag("*", "computation", c, "registered-again-after-an-unregistration")
             w.host[c] = x
-            w.step(x, lambda: d.register_computation(c, x, "addr_" + x), "%s registers %s" % (x, c), "register_computation")
+            if self.p.get("reg_address", True):      # what Agent.add_computation does
+                w.step(x, lambda: d.register_computation(c, x, "addr_" + x), "%s registers %s" % (x, c), "register_computation")
+            else:                                   # the short form: own agent, address already known
+                w.step(x, lambda: d.register_computation(c), "%s registers %s" % (x, c), "register_computation")
         elif name == "unreg_comp":
             c = op[2]
             w.host[c] = None
@@ -1192,6 +1217,8 @@ class _DOps:
             if op[2] == "cb":
                 cb = w.make_cb(x, "agent", "*")
                 s["fns"][cb.cbid] = cb
+            if any(k[0] == x and k[1] == "agent" and k[2] != "*" and v.get("lapsed") and not v["active"] for k, v in w.subs.items()):
+                w.flag(x, "agent", "*", "resubscribed-after-an-unsubscription")
             w.step(x, lambda: d.subscribe_all_agents(cb), "%s subscribes to all agents (%s)" % (x, op[2]), "subscribe_all_agents")
             s["active"] = True
             if cb is not None:
@@ -1251,7 +1278,8 @@ class _DOps:
                       len(new) == 1 and _msg_is(new[0], "unpublish_agent", agent=x), detail=det)
         elif name == "reg_comp":
             env.prove("discovery.register_computation.sends-the-matching-message-to-the-directory",
-                      len(new) == 1 and _msg_is(new[0], "publish_computation", computation=op[2], agent=x, address=addr), detail=det)
+                      len(new) == 1 and _msg_is(new[0], "publish_computation", computation=op[2], agent=x,
+                                                address=(addr if self.p.get("reg_address", True) else None)), detail=det)
         elif name == "unreg_comp":
             ok = len(new) >= 1 and _msg_is(new[-1], "unpublish_computation", computation=op[2], agent=x) \
                 and all(_msg_is(m, "subscribe_computation", computation=op[2], subscribe=False) for m in new[:-1])
@@ -1385,3 +1413,148 @@ def h_discovery(env):
     hist.keep_going = True
     for e in hist.runs():
         _discovery_history(e, dis)
+
+
+def _dsplit(shape):
+    """one job per first operation of the history (the number of legal first operations is found by a dry run of
+    the harness' own option generator); a shape that cannot be dry-run stays one job and fails in the worker"""
+    try:
+        dis = importlib.import_module("pydcop.infrastructure.discovery")
+
+        class _E:       # a do-nothing env: the dry run only builds the world and lists the options
+            params = shape
+
+            def call(self, fn, *a, **kw):
+                return fn(*a, **kw)
+
+            def prove(self, *a, **kw):
+                return True
+
+            def cover(self, *a):
+                pass
+
+        w = _DWorld(_E(), dis, shape["agents"], late=shape.get("late", ()))
+        ops = _DOps(w, shape)
+        for op in shape.get("init", ()):
+            ops.apply(tuple(op))
+            w.run("fifo")
+        n = len(ops.options())
+    except BaseException:  # noqa
+        return [shape]
+    return [dict(shape, fix=[i]) for i in range(n)] if n > 1 else [shape]
+
+
+def _ren(obj, m):
+    """the same shape with other (unsorted, hash-order-different) agent / computation names"""
+    if isinstance(obj, str):
+        return m.get(obj, obj)
+    if isinstance(obj, (list, tuple)):
+        return [_ren(x, m) for x in obj]
+    if isinstance(obj, dict):
+        return {k: _ren(v, m) for k, v in obj.items()}
+    return obj
+
+
+_NAMES = {"a1": "zoe", "a2": "abe", "a3": "moe", "c1": "x9", "c2": "k0"}
+_A2 = ["a1", "a2"]
+_A3 = ["a1", "a2", "a3"]
+_HOSTED = [["reg_comp", "a1", "c1"], ["sub", "a2", "computation", "c1", "nocb"]]
+
+
+def _shapes_discovery(tier):
+    _preimport()
+    s = []
+    # --- computations: registration / unregistration / (un)subscription, 2 agents
+    s += _dsplit(dict(agents=_A2, comps=["c1"], families=["computation"], n_ops=4))
+    s += [dict(agents=_A2, comps=["c1", "c2"], families=["computation"], n_ops=4, kinds=["nocb", "cb"], hosts=["a1"], subscribers=["a2"]),
+          dict(agents=_A2, comps=["c1"], families=["computation"], n_ops=4, sched="end-lifo"),
+          dict(agents=_A2, comps=["c1"], families=["computation"], n_ops=4, sched="random", seeds=3, kinds=["nocb", "cb"]),
+          dict(agents=_A2, comps=["c1"], families=["computation"], n_ops=2, sched="explore", init=_HOSTED, kinds=["nocb", "cb"]),
+          dict(agents=_A2, comps=["c1"], families=["computation"], n_ops=3, init=_HOSTED),
+          _ren(dict(agents=_A2, comps=["c1"], families=["computation"], n_ops=4, kinds=["nocb", "cb"], reg_address=False), _NAMES)]
+    # --- a computation that moves from one host to another while a third agent follows it
+    s += [dict(agents=_A3, comps=["c1"], families=["computation"], hosts=["a1", "a2"], subscribers=[], n_ops=4, sched="random", seeds=8,
+               init=[["sub", "a3", "computation", "c1", "cb"]]),
+          dict(agents=_A3, comps=["c1"], families=["computation"], hosts=["a1", "a2"], subscribers=[], n_ops=4, sched="end-lifo",
+               init=[["sub", "a3", "computation", "c1", "cb"]])]
+    # --- agents: arrival (a3 starts late), departure, (un)subscription, subscription to all agents
+    s += _dsplit(dict(agents=_A3, late=["a3"], leavers=["a2", "a3"], subscribers=["a1", "a2"], agent_targets=["a2", "a3"], comps=[],
+                      families=["agent"], n_ops=4))
+    s += [dict(agents=_A3, late=["a3"], leavers=["a2", "a3"], subscribers=["a1"], agent_targets=["a2"], comps=[], families=["agent"],
+               all_agents=True, n_ops=4, kinds=["nocb", "cb"]),
+          dict(agents=_A3, late=["a3"], leavers=["a3"], subscribers=["a1"], agent_targets=["a3"], comps=[], families=["agent"], n_ops=3,
+               sched="random", seeds=3),
+          dict(agents=_A3, late=["a3"], leavers=["a3"], subscribers=["a1"], agent_targets=["a3"], comps=[], families=["agent"], n_ops=2,
+               sched="explore", kinds=["nocb", "cb"])]
+    # --- replicas (the computation is hosted and followed from the start, as at every call site)
+    s += [_ren(dict(agents=_A2, comps=["c1"], families=["replica"], n_ops=4, init=_HOSTED), _NAMES),
+          dict(agents=_A2, comps=["c1"], families=["replica"], n_ops=3, init=_HOSTED, sched="random", seeds=3),
+          dict(agents=_A2, comps=["c1"], families=["replica"], n_ops=2, init=_HOSTED, sched="explore", kinds=["nocb", "cb"])]
+    # --- mixed kinds
+    s += [dict(agents=_A2, hosts=["a1"], subscribers=["a2"], comps=["c1"], families=["computation", "replica"], n_ops=4, kinds=["nocb", "cb"]),
+          dict(agents=_A2, hosts=["a1"], subscribers=["a2"], comps=["c1"], families=["computation", "replica"], n_ops=3, kinds=["nocb", "cb"],
+               init=_HOSTED, sched="random", seeds=3),
+          _ren(dict(agents=_A3, leavers=["a2"], hosts=["a2"], subscribers=["a1", "a3"], agent_targets=["a2"], comps=["c1"],
+                    families=["agent", "computation"], n_ops=4, kinds=["nocb", "cb"]), _NAMES)]
+    if tier == "thorough":
+        s += _dsplit(dict(agents=_A2, comps=["c1"], families=["computation"], n_ops=5))
+        s += _dsplit(dict(agents=_A2, comps=["c1", "c2"], families=["computation"], n_ops=4))
+        s += _dsplit(dict(agents=_A3, comps=["c1"], families=["computation"], n_ops=4, kinds=["nocb", "cb"]))
+        s += _dsplit(dict(agents=_A2, comps=["c1"], families=["computation"], n_ops=3, sched="explore"))
+        s += _dsplit(dict(agents=_A2, comps=["c1"], families=["computation"], n_ops=5, sched="random", seeds=4, kinds=["nocb", "cb"]))
+        s += _dsplit(dict(agents=_A3, comps=["c1"], families=["computation"], hosts=["a1", "a2"], subscribers=[], n_ops=3, sched="explore",
+                          init=[["sub", "a3", "computation", "c1", "cb"]]))
+        s += _dsplit(dict(agents=_A3, late=["a3"], leavers=["a2", "a3"], subscribers=["a1", "a2"], agent_targets=["a2", "a3"], comps=[],
+                          families=["agent"], n_ops=5, kinds=["nocb", "cb"]))
+        s += _dsplit(dict(agents=_A3, late=["a3"], leavers=["a3"], subscribers=["a1"], agent_targets=["a3"], comps=[], families=["agent"],
+                          n_ops=3, sched="explore"))
+        s += _dsplit(dict(agents=_A3, late=["a3"], leavers=["a2", "a3"], subscribers=["a1", "a2"], agent_targets=["a2", "a3"], comps=[],
+                          families=["agent"], all_agents=True, n_ops=4))
+        s += _dsplit(dict(agents=_A2, comps=["c1"], families=["replica"], n_ops=5, init=_HOSTED))
+        s += _dsplit(dict(agents=_A2, comps=["c1"], families=["replica"], n_ops=3, init=_HOSTED, sched="explore", kinds=["nocb", "cb"]))
+        s += _dsplit(dict(agents=_A2, comps=["c1", "c2"], families=["computation", "replica"], n_ops=4, kinds=["nocb", "cb"], init=_HOSTED))
+        s += _dsplit(dict(agents=_A3, leavers=["a2", "a3"], subscribers=["a1", "a3"], agent_targets=["a2"], comps=["c1"],
+                          families=["agent", "computation", "replica"], n_ops=4, kinds=["nocb", "cb"]))
+    return s
+
+
+Contract(
+    "discovery.histories", ["C20"],
+    ["pydcop.infrastructure.discovery:Discovery.register_agent", "pydcop.infrastructure.discovery:Discovery.unregister_agent",
+     "pydcop.infrastructure.discovery:Discovery.subscribe_agent", "pydcop.infrastructure.discovery:Discovery.unsubscribe_agent",
+     "pydcop.infrastructure.discovery:Discovery.subscribe_all_agents",
+     "pydcop.infrastructure.discovery:Discovery.register_computation", "pydcop.infrastructure.discovery:Discovery.unregister_computation",
+     "pydcop.infrastructure.discovery:Discovery.subscribe_computation", "pydcop.infrastructure.discovery:Discovery.unsubscribe_computation",
+     "pydcop.infrastructure.discovery:Discovery.register_replica", "pydcop.infrastructure.discovery:Discovery.unregister_replica",
+     "pydcop.infrastructure.discovery:Discovery.subscribe_replica", "pydcop.infrastructure.discovery:Discovery.unsubscribe_replica",
+     "pydcop.infrastructure.discovery:Discovery.agent_address", "pydcop.infrastructure.discovery:Discovery.computation_agent",
+     "pydcop.infrastructure.discovery:Discovery.replica_agents",
+     "pydcop.infrastructure.discovery:DiscoveryComputation.on_message", "pydcop.infrastructure.discovery:DiscoveryComputation._on_agent_added",
+     "pydcop.infrastructure.discovery:DiscoveryComputation._on_agent_removed",
+     "pydcop.infrastructure.discovery:DiscoveryComputation._on_computation_added",
+     "pydcop.infrastructure.discovery:DiscoveryComputation._on_computation_removed",
+     "pydcop.infrastructure.discovery:DiscoveryComputation._on_replica_publish",
+     "pydcop.infrastructure.discovery:DirectoryComputation.on_message", "pydcop.infrastructure.discovery:DirectoryComputation._on_subscribe_agent",
+     "pydcop.infrastructure.discovery:DirectoryComputation._on_subscribe_computation",
+     "pydcop.infrastructure.discovery:DirectoryComputation._on_subscribe_replica",
+     "pydcop.infrastructure.discovery:DirectoryComputation._on_publish_replica",
+     "pydcop.infrastructure.discovery:Directory.register_agent", "pydcop.infrastructure.discovery:Directory.unregister_agent",
+     "pydcop.infrastructure.discovery:Directory.register_computation", "pydcop.infrastructure.discovery:Directory.unregister_computation",
+     "pydcop.infrastructure.discovery:Directory.register_replica", "pydcop.infrastructure.discovery:Directory.unregister_replica",
+     "pydcop.infrastructure.discovery:Directory.subscribe_all_agents"],
+    h_discovery, _shapes_discovery, mode="E", must_cover=["drained", "converged-agent", "converged-computation", "converged-replica"],
+    trusted=["router: one FIFO queue per (sender, receiver) pair of discovery computations, any interleaving of the queues "
+             "(what the in-process and http transports and an agent's inbox give, C18)"],
+    assumptions=["C20: delivery orders = FIFO per (sender, receiver) pair; the interleaving of the pairs is explored exhaustively only on "
+                 "the 2-operation shapes (3 in the thorough tier), by seeded random schedules and two extreme policies (everything "
+                 "delivered at once / nothing delivered before the end, last channel first) elsewhere; reordering inside one pair is NOT explored",
+                 "C20: usage preconditions taken from the code and its call sites: a computation is hosted by at most one agent at a time and "
+                 "only its host unregisters it; replicas are published by an agent that hosts or follows the computation; subscribe_replica "
+                 "only by an agent that follows the computation; an agent leaves (unregister_agent) only when it hosts nothing and does "
+                 "nothing afterwards; unsubscribe(cb) only with a callback that is registered",
+                 "C20: 'still subscribed' follows the documented API: unsubscribe(None), removing the last callback, and (for its own "
+                 "computation) the host's unregister_computation end a subscription"],
+    budget=dict(quick=dict(max_paths=400000, timeout_s=560), thorough=dict(max_paths=4000000, timeout_s=3400)),
+    desc="real Discovery x 2-3, Directory, their computations: every history of <= 4 discovery operations; per-operation contracts (view, "
+         "callbacks iff change, kind of the message sent) and, once drained, view == directory for every subscribed item",
+)
